@@ -1,7 +1,7 @@
 (* C01 — a publish reaches exactly the sessions whose subscriptions match its topic. *)
 From Coq Require Import List NArith Bool.
 Import ListNotations.
-From VMQ Require Import model.Trie model.Match proofs.TrieProofs.
+From VMQ Require Import model.Trie model.Match proofs.TrieProofs proofs.TrieHistory.
 Open Scope N_scope.
 
 (* For EVERY well-formed index tree and EVERY wildcard-free topic (any depth, empty levels, '$'
@@ -13,15 +13,22 @@ Theorem C01_search_iff_matches : forall (t : list lvl) (root : node), wf root ->
 Proof. exact search_top_spec. Qed.
 Print Assumptions C01_search_iff_matches.
 
-(* The whole-history statement: after any history of subscribe / re-subscribe / unsubscribe /
-   retain-set / retain-clear, a session receives a publish iff the abstract subscription map holds a
-   matching filter for it.  It follows from the theorem above plus "tsubs (run h) = abs_subs h and
-   run h is well-formed", which is NOT yet proved (partial); the correspondence run checks it on
-   every generated history against both providers.  Kept visible: *)
-Definition C01_publish_iff_full : Prop :=
+(* The whole-history statement: after ANY history of subscribe / re-subscribe / unsubscribe / retain-set
+   / retain-clear, a session receives a publish iff the abstract subscription map of the history (the
+   last subscription per (filter, session), minus what was unsubscribed - Match.abs_subs) holds a
+   filter of that session which matches the topic. *)
+Theorem C01_publish_iff_full :
   forall (h : list op) (t : list N) (s : N), valid_topic (split t) = true ->
     (In s (map fst (search_top (split t) (run h))) <->
      exists f sp, In ((f, s), sp) (abs_subs h) /\ matches f (split t) = true).
+Proof. exact publish_iff_history. Qed.
+Print Assumptions C01_publish_iff_full.
+
+(* every tree a history produces is well-formed and holds exactly the abstract map *)
+Theorem C01_tree_is_abstract_map : forall h,
+  wf (run h) /\ forall q s sp, In (q, (s, sp)) (tsubs (run h)) <-> In ((q, s), sp) (abs_subs h).
+Proof. exact run_rel. Qed.
+Print Assumptions C01_tree_is_abstract_map.
 
 Example C01_nonvacuous :
   let h := [OSub [97;47;43] 1 (mkSP 0 false false 0 0); OSub [35] 2 (mkSP 1 false false 0 0);
